@@ -874,7 +874,49 @@ def linear(e):
                 return ({x: c * a[1] for x, c in b[0].items() if c * a[1] != 0}, a[1] * b[1])
             if not b[0]:
                 return ({x: c * b[1] for x, c in a[0].items() if c * b[1] != 0}, a[1] * b[1])
+    v = const_eval(e)
+    if v is not None:
+        return ({}, v)
     return ({canon_atom(e): 1}, 0)
+
+
+def const_eval(e):
+    """value of a constant integer expression (shifts, masks, arithmetic on literals) or None"""
+    e = strip(e)
+    if e[0] == "const":
+        return e[1] if isinstance(e[1], int) else None
+    if e[0] in ("bin", "chk"):
+        a, b = const_eval(e[2]), const_eval(e[3])
+        if a is None or b is None:
+            return None
+        op = e[1]
+        try:
+            if op == "Add":
+                return a + b
+            if op == "Sub":
+                return a - b
+            if op == "Mul":
+                return a * b
+            if op == "Div":
+                return a // b
+            if op == "Rem":
+                return a % b
+            if op == "Shl":
+                return a << b
+            if op == "Shr":
+                return a >> b
+            if op == "BitOr":
+                return a | b
+            if op == "BitAnd":
+                return a & b
+            if op == "BitXor":
+                return a ^ b
+        except (ZeroDivisionError, ValueError, OverflowError):
+            return None
+    if e[0] == "un" and e[1] == "Neg":
+        a = const_eval(e[2])
+        return -a if a is not None else None
+    return None
 
 
 def compare_norm(e):
